@@ -364,8 +364,15 @@ func ParentMain(id, tier string, seed int64) int {
 	confirmed := 0
 	var unstable []string
 	for i, v := range unknown {
-		if i >= 6 || strings.Contains(v.Sig, "worker-death kind=hang") {
+		if i >= 6 {
 			break
+		}
+		if strings.Contains(v.Sig, " worker-death kind=") {
+			// a worker death is observed by the parent itself (exit status, stderr, progress
+			// record); whether it recurs in a fresh process depends on the heap the earlier
+			// cases left behind (an allocation of 2 GiB fails only when 2 GiB are in use)
+			confirmed++
+			continue
 		}
 		ok := true
 		for rep := 0; rep < 2 && ok; rep++ {
